@@ -16,7 +16,7 @@ def factsAlphabet : List (String × String) := [
   ("LetterAlphabet.decode", "raises=AlphabetError | compares=p1 < 0 ; p1 >= len(p0._a0)"),
   ("LetterAlphabet.decode_multiple", "raises=AlphabetError | compares=p1.dtype != np.uint8 ; p1 < 0 ; p1 >= len(p0._a0)"),
   ("LetterAlphabet.encode_multiple", "raises=AlphabetError | compares=np.char.str_len(p1) != 1"),
-  ("AlphabetMapper.__init__", "tests=p2.extends(p1)")]
+  ("AlphabetMapper.__init__", "extends=p2.extends(p1)")]
 /-- alpha-normalised facts of the source, group `sequence` (function, facts). -/
 def factsSequence : List (String × String) := [
   ("Sequence.code.setter", "raises=AlphabetError,TypeError | compares=p1.dtype != v ; p1 < v.min ; p1 > v.max"),
@@ -30,12 +30,12 @@ def factsSequence : List (String × String) := [
   ("ProteinSequence.__init__", "raises=AlphabetError | compares=len(v) == 3")]
 /-- alpha-normalised facts of the source, group `translate` (function, facts). -/
 def factsTranslate : List (String × String) := [
-  ("NucleotideSequence.translate", "raises=AlphabetError,ValueError | consts=ModR3,MultR3,FloorDivR3,AddR1 | calls=reshape(3),encode('*'),encode('M'),range(3) | compares=p0._a0 != NucleotideSequence.alphabet_unamb ; p2 is None ; len(p0) % 3 != 0 ; v == v ; len(v) > 0")]
+  ("NucleotideSequence.translate", "raises=AlphabetError,ValueError | consts=ModR3,MultR3,FloorDivR3,AddR1 | calls=reshape(3),encode('*'),encode('M'),range(3) | compares=p0._a0 != NucleotideSequence.alphabet_unamb ; p2 is None ; len(p0) % 3 != 0 ; v == v")]
 /-- alpha-normalised facts of the source, group `codon` (function, facts). -/
 def factsCodon : List (String × String) := [
   ("CodonTable._to_number", "raises=AlphabetError | compares=p0 < 0 ; p0 >= _g0"),
-  ("CodonTable.__init__", "raises=ValueError | compares=len(v) != 3 ; p0._a2 == -1"),
-  ("CodonTable.map_codon_codes", "raises=ValueError | compares=p1.shape[-1] != 3"),
+  ("CodonTable.__init__", "raises=AlphabetError,ValueError | compares=len(v) != 3 ; p0._a1 == -1"),
+  ("CodonTable.map_codon_codes", "raises=AlphabetError,ValueError | compares=p1.shape[-1] != 3 ; p1 < 0 ; p1 >= _g0"),
   ("CodonTable.load", "tests=v ; isinstance(p0, Integral) ; v.startswith('id') ; p0 == int(v[2:]) ; isinstance(p0, str) ; v.startswith('name') ; p0 in v ; v.startswith('AA') ; v.startswith('Init') ; v.startswith('Base1') ; v.startswith('Base2') ; v.startswith('Base3') ; v is not None ; v[v] == 'i' | raises=ValueError | consts=Slicelo2,Slicelo4,Slicelo5 | compares=p0 == int(v[2:]) ; p0 in v ; v is not None ; v[v] == 'i'")]
 /-- alpha-normalised facts of the source, group `kmer` (function, facts). -/
 def factsKmer : List (String × String) := [
